@@ -60,6 +60,11 @@ def start_gen(t, g):
                                               include_outbound=True)
     if g["kind"] == "qchildren":
         return t.get_webentity_child_webentities_iter(g["id"], list(g["ps"]))
+    if g["kind"] == "qnetslow":
+        return t.get_webentities_links_slow_iter(out=g["out"], include_auto=g["auto"])
+    if g["kind"] == "qtop":
+        return t.get_webentity_most_linked_pages_iter(g["id"], list(g["ps"]), pages_count=g["k"],
+                                                      max_depth=None if g["depth"] < 0 else g["depth"])
     raise impl.MachineryError("unknown generator kind %r" % g["kind"])
 
 
@@ -85,6 +90,10 @@ def moment(t, g):
     if k == "qchildren":
         v, e = guarded(lambda: sorted(t.get_webentity_child_webentities(g["id"], list(g["ps"]))))
         return v or []
+    if k == "qtop":
+        v, e = guarded(lambda: [p["lru"] for p in t.get_webentity_most_linked_pages(
+            g["id"], list(g["ps"]), pages_count=TOP_ALL, max_depth=None if g["depth"] < 0 else g["depth"])])
+        return v or []
     v, e = guarded(lambda: t.get_webentities_links(out=g["out"], include_auto=g["auto"]))
     out = []
     for s, cnt in (v or {}).items():
@@ -102,12 +111,37 @@ def result_items(g, res):
         return sorted((x or 0) for x in (res or []))
     if k == "qpagelinks":
         return [[s, tg] for s, tg, w in (res or [])]
+    if k == "qtop":
+        return [p["lru"] for p in (res or [])]
     out = []
     for s, cnt in (res or {}).items():
         for k in cnt:
             if k not in ("pages_crawled", "pages_uncrawled"):
                 out.append([s, k])
     return out
+
+
+TOP_ALL = 1000      # "every page": the answer of a most-linked query is then a set of pages with bounds
+
+
+def bounded(g):
+    """Queries whose answer is a set of items that qualify or not at each moment."""
+    return g["kind"].startswith("q") and not (g["kind"] == "qtop" and g["k"] < TOP_ALL)
+
+
+def record_result(g, state, op, results, j):
+    results[j] = result_items(g, state.result)
+    k = g["kind"]
+    if k in ("qpages", "qcrawled"):
+        op["result"] = list(results[j])
+    if k in ("qnet", "qnetslow"):
+        op["net"] = net_triples(state.result)
+    if k in ("qoutlinks", "qinlinks", "qchildren"):
+        op["weids"] = list(results[j])
+    if k == "qpagelinks":
+        op["net"] = [{"s": s, "t": tg, "w": w} for s, tg, w in (state.result or [])]
+    if k == "qtop":
+        op["top"] = [{"l": p["lru"], "n": p["indegree"]} for p in (state.result or [])]
 
 
 def net_triples(graph):
@@ -166,7 +200,12 @@ def run_coop(seed, profile, backend, tid, hook=None):
                 wid, ps = rng.choice(wes)
                 descr.append({"kind": rng.choice(["qoutlinks", "qinlinks", "qpagelinks"]), "id": wid, "ps": ps})
             if rng.random() < 0.3:
-                descr.append({"kind": "qnet", "out": rng.random() < 0.5, "auto": rng.random() < 0.5})
+                descr.append({"kind": rng.choice(["qnet", "qnet", "qnetslow"]), "out": rng.random() < 0.5,
+                              "auto": rng.random() < 0.5})
+            if wes and rng.random() < 0.2:
+                wid, ps = rng.choice(wes)
+                descr.append({"kind": "qtop", "id": wid, "ps": ps, "k": rng.choice([1, 2, 3, TOP_ALL, TOP_ALL]),
+                              "depth": rng.choice([-1, -1, 0, 1, 2])})
             rng.shuffle(descr)
             # family filter for the rule generator
             for g in descr:
@@ -193,14 +232,14 @@ def run_coop(seed, profile, backend, tid, hook=None):
             gens = [start_gen(ix.t, g) for g in descr]
             obs = snap(begin, {"exc": "", "pages": 0, "created": [], "ret": None})
             live = list(range(len(gens)))
-            moments = {j: [moment(ix.t, g)] for j, g in enumerate(descr) if g["kind"].startswith("q")}
+            moments = {j: [moment(ix.t, g)] for j, g in enumerate(descr) if bounded(g)}
             results = {}
             started = set()
             nsteps = 0
             while live and nsteps < 400:
                 nsteps += 1
                 j = rng.choice(live)
-                op = {"op": "CoopNext", "g": j + 1, "done": False, "result": [], "net": [], "weids": []}
+                op = {"op": "CoopNext", "g": j + 1, "done": False, "result": [], "net": [], "weids": [], "top": []}
                 res = {"exc": "", "pages": 0, "created": [], "ret": None}
                 del impl.WRITE_LOG[:]
                 try:
@@ -213,15 +252,7 @@ def run_coop(seed, profile, backend, tid, hook=None):
                         if descr[j]["kind"] in ("crawl", "rule"):
                             res.update(impl.report_dict(state.result))
                         else:
-                            results[j] = result_items(descr[j], state.result)
-                            if descr[j]["kind"] in ("qpages", "qcrawled"):
-                                op["result"] = list(results[j])
-                            if descr[j]["kind"] == "qnet":
-                                op["net"] = net_triples(state.result)
-                            if descr[j]["kind"] in ("qoutlinks", "qinlinks", "qchildren"):
-                                op["weids"] = list(results[j])
-                            if descr[j]["kind"] == "qpagelinks":
-                                op["net"] = [{"s": s, "t": tg, "w": w} for s, tg, w in (state.result or [])]
+                            record_result(descr[j], state, op, results, j)
                 except StopIteration:
                     op["done"] = True
                     live.remove(j)
@@ -290,13 +321,13 @@ def replay_coop(backend, default, rules, ops, tid=0):
                     pages0 = [{"l": l, "cr": c} for l, c in obs["pages"]]
                     outs0 = [{"s": s, "t": t, "w": w} for s, t, w in obs["outs"]]
                     gens = [start_gen(ix.t, g) for g in descr]
-                    moments = {j: [moment(ix.t, g)] for j, g in enumerate(descr) if g["kind"].startswith("q")}
+                    moments = {j: [moment(ix.t, g)] for j, g in enumerate(descr) if bounded(g)}
                     obs = snap({"op": "CoopBegin", "gens": [dict(g) for g in descr]},
                                {"exc": "", "pages": 0, "created": [], "ret": None})
                 elif op["op"] == "CoopNext":
                     seen_next += 1
                     j = op["g"] - 1
-                    o2 = {"op": "CoopNext", "g": j + 1, "done": False, "result": [], "net": [], "weids": []}
+                    o2 = {"op": "CoopNext", "g": j + 1, "done": False, "result": [], "net": [], "weids": [], "top": []}
                     res = {"exc": "", "pages": 0, "created": [], "ret": None}
                     try:
                         with warnings.catch_warnings(), impl.time_limit():
@@ -307,15 +338,7 @@ def replay_coop(backend, default, rules, ops, tid=0):
                             if descr[j]["kind"] in ("crawl", "rule"):
                                 res.update(impl.report_dict(state.result))
                             else:
-                                results[j] = result_items(descr[j], state.result)
-                                if descr[j]["kind"] in ("qpages", "qcrawled"):
-                                    o2["result"] = list(results[j])
-                                if descr[j]["kind"] == "qnet":
-                                    o2["net"] = net_triples(state.result)
-                                if descr[j]["kind"] in ("qoutlinks", "qinlinks", "qchildren"):
-                                    o2["weids"] = list(results[j])
-                                if descr[j]["kind"] == "qpagelinks":
-                                    o2["net"] = [{"s": s, "t": tg, "w": w} for s, tg, w in (state.result or [])]
+                                record_result(descr[j], state, o2, results, j)
                     except StopIteration:
                         o2["done"] = True
                     except Exception as e:
